@@ -520,7 +520,7 @@ Proof.
   intros HR Hstep. pose proof HR as (HRL & He & Hq).
   unfold step in Hstep. unfold spec_step.
   destruct (negb (o_exn ob =? 0)); [discriminate|].
-  destruct o as [p explicit cur|t|t|dt|b].
+  destruct o as [p explicit cur|t|t|b].
   - (* add_processor *)
     destruct (negb (declared I p)); [discriminate|].
     destruct (add_processor I st p explicit cur) as [st1 log] eqn:Ea.
@@ -563,14 +563,6 @@ Proof.
     rewrite (get_answer_ok _ _ _ _ st t _ HRL eq_refl Eg). cbn [andb].
     rewrite E2. unfold processors. rewrite (RL_order_ok _ _ _ _ HRL).
     exists ss. auto.
-  - (* process *)
-    destruct (evs_eqb (o_log ob) (process st dt)) eqn:E1; cbn [andb] in Hstep; [|discriminate].
-    destruct (zs_eqb (o_procs ob) (processors st)) eqn:E2; cbn [andb] in Hstep; [|discriminate].
-    destruct (o_flag ob); cbn [andb] in Hstep; [|discriminate].
-    destruct (opt_eqb (o_ret ob) None); [|discriminate]. injection Hstep as <-.
-    apply evs_eqb_eq in E1. apply zs_eqb_eq in E2.
-    rewrite E1, E2. unfold process, processors. rewrite map_map, evs_eqb_refl.
-    rewrite (RL_order_ok _ _ _ _ HRL). exists ss. auto.
   - (* dispatch_enabled = b *)
     unfold set_enabled in Hstep. destruct b.
     + destruct (evs_eqb (o_log ob) (queue st)) eqn:E1; cbn [andb] in Hstep; [|discriminate].
@@ -591,14 +583,111 @@ Proof.
       eexists. split; [reflexivity|]. repeat split; cbn; auto; apply HRL.
 Qed.
 
-Lemma run_sim tr : forall st ss st',
-  R st ss -> run H I st tr = Some st' ->
-  exists ss', spec_run H I ss tr = Some ss' /\ R st' ss'.
+(* every accepted operation reports world.processors of the model state *)
+Lemma step_procs st o ob st' : step H I st o ob = Some st' -> o_procs ob = processors st'.
 Proof.
-  induction tr as [|[o ob] tr IH]; intros st ss st' HR Hrun; cbn [run spec_run] in *.
+  unfold step. destruct (negb (o_exn ob =? 0)); [discriminate|].
+  destruct o as [p explicit cur|t|t|b].
+  - destruct (negb (declared I p)); [discriminate|].
+    destruct (add_processor I st p explicit cur) as [st1 log].
+    destruct (evs_eqb (o_log ob) log); cbn [andb]; [|discriminate].
+    destruct (zs_eqb (o_procs ob) (processors st1)) eqn:E; cbn [andb]; [|discriminate].
+    destruct (o_flag ob && opt_eqb (o_ret ob) None); [|discriminate].
+    intros [= <-]. now apply zs_eqb_eq.
+  - destruct (remove_processor H I st t (o_ret ob)) as [[st1 log]|]; [|discriminate].
+    destruct (evs_eqb (o_log ob) log); cbn [andb]; [|discriminate].
+    destruct (zs_eqb (o_procs ob) (processors st1)) eqn:E; cbn [andb]; [|discriminate].
+    destruct (o_flag ob); [|discriminate]. intros [= <-]. now apply zs_eqb_eq.
+  - destruct (get_processor H I st t (o_ret ob) && evs_eqb (o_log ob) []); cbn [andb];
+      [|discriminate].
+    destruct (zs_eqb (o_procs ob) (processors st)) eqn:E; cbn [andb]; [|discriminate].
+    destruct (o_flag ob); [|discriminate]. intros [= <-]. now apply zs_eqb_eq.
+  - destruct (set_enabled st b) as [st1 log].
+    destruct (evs_eqb (o_log ob) log); cbn [andb]; [|discriminate].
+    destruct (zs_eqb (o_procs ob) (processors st1)) eqn:E; cbn [andb]; [|discriminate].
+    destruct (o_flag ob && opt_eqb (o_ret ob) None); [|discriminate].
+    intros [= <-]. now apply zs_eqb_eq.
+Qed.
+
+(* ---- frames -------------------------------------------------------------- *)
+Lemma acts_sim acts : forall st ss st',
+  R st ss -> run_acts H I st acts = Some st' ->
+  exists ss', spec_acts H I ss acts = Some ss' /\ R st' ss'.
+Proof.
+  induction acts as [|[o ob] acts IH]; intros st ss st' HR Hrun; cbn [run_acts spec_acts] in *.
   - injection Hrun as <-. eauto.
   - destruct (step H I st o ob) as [st1|] eqn:Es; [|discriminate].
-    destruct (step_sim _ _ _ _ _ HR Es) as (ss1 & Hs1 & HR1). rewrite Hs1. eauto.
+    destruct (step_sim _ _ _ _ _ HR Es) as (ss1 & -> & HR1). eauto.
+Qed.
+
+(* the membership test of process() is "still registered" *)
+Lemma registered_is_reg st ss e :
+  R st ss -> e_ty e = i_ty (inst_of I (e_pid e)) -> registered st e = is_reg ss (e_pid e).
+Proof.
+  intros ((_ & Hd & Hty & _ & Hprc) & _) He. unfold registered, is_reg. rewrite Hprc.
+  destruct (find_pid (e_pid e) (reg ss)) as [s|] eqn:Ep.
+  - unfold find_pid in Ep. apply find_some in Ep. destruct Ep as (Hs & Ep).
+    apply Z.eqb_eq in Ep.
+    assert (Et : s_ty s = e_ty e) by (rewrite He, <- Ep; now apply Hty).
+    rewrite <- Et, (find_ty_in _ s Hd Hs). cbn [option_map]. rewrite Ep. now apply opt_eqb_eq.
+  - destruct (find_ty (e_ty e) (reg ss)) as [s|] eqn:Et; cbn [option_map]; auto.
+    destruct (opt_eqb (Some (s_pid s)) (Some (e_pid e))) eqn:Eq; auto.
+    apply opt_eqb_eq in Eq. injection Eq as Eq.
+    apply find_ty_some in Et. destruct Et as (Hs & _).
+    pose proof (find_pid_in _ s Hd Hty Hs) as Hf. rewrite Eq in Hf. congruence.
+Qed.
+
+Lemma frame_sim dt snap : forall st ss bs st',
+  R st ss -> Forall (fun e => e_ty e = i_ty (inst_of I (e_pid e))) snap ->
+  run_frame H I dt snap st bs = Some st' ->
+  exists ss', spec_frame H I dt (map e_pid snap) ss bs = Some ss' /\ R st' ss'.
+Proof.
+  induction snap as [|e snap IH]; intros st ss bs st' HR Hsnap Hrun;
+    cbn [run_frame spec_frame map] in *.
+  - destruct bs; [|discriminate]. injection Hrun as <-. eauto.
+  - inversion Hsnap as [|? ? He Hsnap']; subst.
+    rewrite <- (registered_is_reg st ss e HR He).
+    destruct (registered st e).
+    + destruct bs as [|b bs]; [discriminate|].
+      destruct ((b_pid b =? e_pid e) && (b_dt b =? dt)); [|discriminate].
+      destruct (run_acts H I st (b_acts b)) as [st1|] eqn:Ea; [|discriminate].
+      destruct (acts_sim _ _ _ _ HR Ea) as (ss1 & -> & HR1). eauto.
+    + eauto.
+Qed.
+
+Lemma sorted_typed st ss :
+  R st ss -> Forall (fun e => e_ty e = i_ty (inst_of I (e_pid e))) (sorted st).
+Proof.
+  intros (((L & HL & HP & _) & _ & Hty & _) & _). rewrite HL. apply Forall_forall.
+  intros e He. apply in_map_iff in He. destruct He as (s & <- & Hs). cbn [forget e_ty e_pid].
+  apply Hty. eapply Permutation_in; eauto.
+Qed.
+
+Lemma istep_sim st ss it st' :
+  R st ss -> istep H I st it = Some st' ->
+  exists ss', spec_istep H I ss (processors st) it = Some (ss', processors st') /\ R st' ss'.
+Proof.
+  intros HR Hs. destruct it as [o ob|dt bs ob]; cbn [istep spec_istep] in *.
+  - destruct (step_sim _ _ _ _ _ HR Hs) as (ss' & -> & HR').
+    rewrite (step_procs _ _ _ _ Hs). eauto.
+  - destruct (run_frame H I dt (sorted st) st bs) as [st1|] eqn:Ef; [|discriminate].
+    destruct (o_exn ob =? 0) eqn:Ex; cbn [andb negb] in *; [|discriminate].
+    destruct (evs_eqb (o_log ob) []); cbn [andb] in Hs; [|discriminate].
+    destruct (zs_eqb (o_procs ob) (processors st1)) eqn:Ep; cbn [andb] in Hs; [|discriminate].
+    destruct (o_flag ob && opt_eqb (o_ret ob) None); [|discriminate]. injection Hs as <-.
+    apply zs_eqb_eq in Ep.
+    destruct (frame_sim dt _ _ _ _ _ HR (sorted_typed _ _ HR) Ef) as (ss' & Hsf & HR').
+    unfold processors at 1. rewrite Hsf, Ep. unfold processors at 1.
+    destruct HR' as (HRL' & He' & Hq'). rewrite (RL_order_ok _ _ _ _ HRL').
+    exists ss'. split; [reflexivity|]. split; auto.
+Qed.
+
+Lemma run_sim tr : forall st ss st',
+  R st ss -> run H I st tr = Some st' -> spec_run H I ss (processors st) tr = true.
+Proof.
+  induction tr as [|it tr IH]; intros st ss st' HR Hrun; cbn [run spec_run] in *; auto.
+  destruct (istep H I st it) as [st1|] eqn:Es; [|discriminate].
+  destruct (istep_sim _ _ _ _ HR Es) as (ss1 & -> & HR1). eauto.
 Qed.
 
 End WithInsts.
@@ -607,7 +696,7 @@ Theorem accepts_holds c : accepts c = true -> holds c.
 Proof.
   unfold accepts, holds, holds_b.
   destruct (run (c_hier c) (c_insts c) init (c_trace c)) as [st'|] eqn:E; [|discriminate].
-  intros _. destruct (run_sim _ _ _ _ _ _ (R_init _) E) as (ss' & -> & _). reflexivity.
+  intros _. exact (run_sim _ _ _ _ _ _ (R_init _) E).
 Qed.
 
 (* ---- what [order_ok] says, in terms of lists ---------------------------- *)
@@ -666,17 +755,45 @@ Proof.
   - now apply nodupb_true.
 Qed.
 
-(* a frame: exactly the registered processors, each once, in that order, with dt *)
-Theorem process_meaning H I ss dt ob ss' :
-  spec_step H I ss (OProcess dt) ob = Some ss' ->
-  ss' = ss /\ o_exn ob = 0 /\
-  exists L, o_log ob = map (fun s => ERun (s_pid s) dt) L /\
-            Permutation L (reg ss) /\ StronglySorted slt L.
+(* ---- what a frame is, in terms of lists ---------------------------------- *)
+(* the processors that ran are a subsequence of the start-of-frame order, all with dt *)
+Inductive subseq {A} : list A -> list A -> Prop :=
+| sub_nil : subseq [] []
+| sub_skip x l1 l2 : subseq l1 l2 -> subseq l1 (x :: l2)
+| sub_take x l1 l2 : subseq l1 l2 -> subseq (x :: l1) (x :: l2).
+
+Theorem frame_meaning H I dt order : forall ss bs ss',
+  spec_frame H I dt order ss bs = Some ss' ->
+  subseq (map b_pid bs) order /\ Forall (fun b => b_dt b = dt) bs.
 Proof.
-  unfold spec_step. destruct (o_exn ob =? 0) eqn:Ex; cbn [negb]; [|discriminate].
-  destruct (evs_eqb _ _) eqn:E1; [|discriminate].
-  destruct (order_ok I (reg ss) (o_procs ob)) eqn:E2; [|discriminate].
-  intros [= <-]. apply evs_eqb_eq in E1.
-  destruct (order_ok_meaning _ _ _ E2) as (L & El & HP & HS & _).
-  repeat split; [lia|]. exists L. rewrite E1, El, map_map. auto.
+  induction order as [|p order IH]; intros ss bs ss' Hf; cbn [spec_frame] in Hf.
+  - destruct bs; [|discriminate]. split; constructor.
+  - destruct (is_reg ss p).
+    + destruct bs as [|b bs]; [discriminate|].
+      destruct (b_pid b =? p) eqn:E1; cbn [andb] in Hf; [|discriminate].
+      destruct (b_dt b =? dt) eqn:E2; [|discriminate].
+      destruct (spec_acts H I ss (b_acts b)) as [ss1|]; [|discriminate].
+      destruct (IH _ _ _ Hf) as (Hs & Hd). apply Z.eqb_eq in E1, E2. cbn [map]. rewrite E1.
+      split; [now apply sub_take|constructor; auto].
+    + destruct (IH _ _ _ Hf) as (Hs & Hd). split; auto. now constructor.
+Qed.
+
+(* a frame whose bodies leave the world alone: exactly the start-of-frame
+   list, each once, in that order, with dt *)
+Theorem frame_plain_meaning H I dt order : forall ss bs ss',
+  (forall p, In p order -> is_reg ss p = true) ->
+  Forall (fun b => b_acts b = []) bs ->
+  spec_frame H I dt order ss bs = Some ss' ->
+  ss' = ss /\ map b_pid bs = order /\ Forall (fun b => b_dt b = dt) bs.
+Proof.
+  induction order as [|p order IH]; intros ss bs ss' Hreg Hplain Hf; cbn [spec_frame] in Hf.
+  - destruct bs; [|discriminate]. injection Hf as <-. repeat split; constructor.
+  - rewrite (Hreg p (or_introl eq_refl)) in Hf.
+    destruct bs as [|b bs]; [discriminate|].
+    destruct (b_pid b =? p) eqn:E1; cbn [andb] in Hf; [|discriminate].
+    destruct (b_dt b =? dt) eqn:E2; [|discriminate].
+    inversion Hplain as [|? ? Hb Hplain']; subst. rewrite Hb in Hf. cbn [spec_acts] in Hf.
+    destruct (IH ss bs ss') as (-> & Hm & Hd); auto.
+    { intros q Hq. apply Hreg. now right. }
+    apply Z.eqb_eq in E1, E2. cbn [map]. rewrite E1, Hm. repeat split; auto.
 Qed.
